@@ -91,6 +91,19 @@ pub fn val_tok(r: &mut Rng, kind: &str, tame: bool) -> String {
         k => {
             let (lo, hi) = int_bounds(k);
             let (tlo, thi) = (lo.max(-100).max(lo / 2), hi.min(100).min(hi / 2).max(1));
+            if hi >= (1 << 24) && r.chance(1, 12) {
+                // the edge of exact integer arithmetic in binary32: odd values between 2^23 and 2^24 (spacing 1, so x + 0.5
+                // is a tie that rounds to even), 2^24 itself and its neighbours — all exactly representable
+                let m: i128 = match r.below(6) {
+                    0 => (1 << 23) + 1,
+                    1 => (1 << 24) - 1,
+                    2 => (1 << 24),
+                    3 => (1 << 24) - 2,
+                    _ => (1 << 23) + 1 + 2 * (r.below((1 << 22) - 1) as i128),
+                };
+                let v = if lo < 0 && r.chance(1, 2) { -m } else { m };
+                return v.to_string();
+            }
             if tame || r.chance(3, 4) {
                 let span = (thi - tlo + 1) as u64;
                 (tlo + r.below(span) as i128).to_string()
@@ -699,6 +712,39 @@ fn gen_merged(r: &mut Rng, n: usize, out: &mut dyn Write) {
         if ncomp == 1 {
             // wrapping a single timeline changes nothing
             writeln!(out, "# eq C12 2 {}", 3).unwrap();
+        }
+        // a merge of merges (`MergedTimeline<MergedTimeline<T>>`): the components split into consecutive groups, some of
+        // them possibly empty; it must evaluate like the flat merge, and its metadata follows the same rules applied to
+        // what the inner merges report (an inner merge without a common cycle duration reports none)
+        if r.chance(1, 2) {
+            let ngroups = 1 + r.below(3) as usize;
+            let mut cuts: Vec<usize> = (0..ngroups.saturating_sub(1)).map(|_| r.below(ncomp as u64 + 1) as usize).collect();
+            cuts.sort();
+            let mut bounds = vec![0usize]; bounds.extend(cuts); bounds.push(ncomp);
+            let mut inner_slots: Vec<String> = Vec::new();
+            for g in 0..ngroups {
+                let members: Vec<String> = (bounds[g]..bounds[g + 1]).map(|c| (10 + c).to_string()).collect();
+                let sl = 40 + 2 * g;     // even slots: plain `MergedTimeline::of`
+                writeln!(out, "merge {} {} {} {}", sl, members.len(), members.join(" "), shape).unwrap();
+                inner_slots.push(sl.to_string());
+            }
+            writeln!(out, "merge2 30 {} {} {}", ngroups, inner_slots.join(" "), shape).unwrap();
+            writeln!(out, "meta 30").unwrap();
+            for sl in &inner_slots { writeln!(out, "meta {}", sl).unwrap(); }
+            writeln!(out, "# merged-meta C12 {} {}", ngroups + 1, ngroups).unwrap();
+            let sv = if r.chance(1, 2) { Some(vals_line(r, shape, true)) } else { None };
+            if let Some(sv) = &sv {
+                writeln!(out, "clone 0 31").unwrap();
+                writeln!(out, "start 30 {}", sv.join(" ")).unwrap();
+                writeln!(out, "start 31 {}", sv.join(" ")).unwrap();
+            }
+            for _ in 0..4 {
+                let t = if let Some(tl) = comps.first() { let ts = times_for(r, tl, 1); r.pick(&ts) } else { r.unit_f32() * 4.0 };
+                let target = vals_line(r, shape, true);
+                writeln!(out, "upd 30 {} {}", b(t), target.join(" ")).unwrap();
+                writeln!(out, "upd {} {} {}", if sv.is_some() { 31 } else { 0 }, b(t), target.join(" ")).unwrap();
+                writeln!(out, "# eq C12 1 2").unwrap();
+            }
         }
         // a reordered merge (disjoint property sets => same results)
         let mut perm: Vec<usize> = (0..ncomp).collect();
